@@ -1,5 +1,6 @@
 import FV.Props.C17
 import FV.EmplaceSerAll
+import FV.Props.C16
 /-! # C17 / C03 clause 3 — the emplaced image of a portable value is its reference serialisation -/
 namespace FV.Props
 open FV
@@ -27,4 +28,26 @@ example : emplaceU (.flex (.str ⟨1, 1, false⟩) ⟨2, 1, false⟩) (.flexIter
     .ok ⟨[5, 0, 2, 97, 98, 255, 255, 1, 99, 9, 9], .ok ()⟩ ∧
     serialize (.flex (.str ⟨1, 1, false⟩) ⟨2, 1, false⟩) (.flexIter [.strFrom [97, 98], .strFrom [99]]) =
       some [5, 0, 2, 97, 98, 255, 255, 1, 99] := ⟨by decide +kernel, by decide⟩
+/-- **C17 / C16 (the length field of a container is the portable scalar).** The bytes a container writes for a length or offset `n`
+are exactly the stored bytes of the unsigned portable integer of that width and byte order holding `n` (`C16_byte_order`), and the
+value a container reads back from a length field is that portable integer's native value: the two models of "a number in `N`
+bytes of fixed order" — the containers' `LenTy` and the scalars' `PTy` — are one. `L::MAX` is the largest value that scalar holds. -/
+theorem C17_length_field_is_portable_scalar (l : LenTy) (n : Nat) :
+    encLenTy l n = (⟨l.be, l.size, false⟩ : PTy).fromNative (n : Int) ∧
+    (∀ (s : Slice) (v : Nat), l.readU s = .ok v → ((⟨l.be, l.size, false⟩ : PTy).toNative (s.bytes.take l.size) = (v : Int))) ∧
+    ((l.max : Int) = (⟨l.be, l.size, false⟩ : PTy).hi) := by
+  refine ⟨?_, ?_, ?_⟩
+  · simp [encLenTy, PTy.fromNative]
+  · intro s v h
+    unfold LenTy.readU at h
+    split at h
+    · cases h
+    · split at h
+      · cases h
+      · simp only [Res.ok.injEq] at h
+        subst h
+        cases hb : l.be <;> simp [PTy.toNative, beNat]
+  · have hp : 0 < 256 ^ l.size := Nat.pow_pos (by omega)
+    simp only [LenTy.max, PTy.hi, Bool.false_eq_true, if_false]
+    omega
 end FV.Props
